@@ -313,6 +313,8 @@ class Interp:
         self.guards = []          # current path condition [(text, polarity)]
         self.loop_stack = []
         self.branch_oracle = branch_oracle
+        self.bool_inputs = set()      # names of boolean inputs (flags) met so far; paths.explore enumerates them
+        self.path_oracle = None
         self.on_call = on_call    # hook(callee, node, interp) -> value or NotImplemented
         self.depth = 0
         self.lambdas = {}
@@ -385,6 +387,7 @@ class Interp:
         if c == "int":
             return S(name, integer=True, **self.field_assumptions.get(name, {}))
         if c == "bool":
+            self.bool_inputs.add(name)
             return S(name)
         if c == "eigen":
             r, cl = ty.get("rows"), ty.get("cols")
@@ -573,9 +576,19 @@ class Interp:
             return self.ev(e["a"], env)
         if c == sp.false:
             return self.ev(e["b"], env)
+        if getattr(self, "path_oracle", None) is not None:
+            dec = self.case_decide(c) if self.case is not None and isinstance(c, sp.Basic) else None
+            if dec is None:
+                dec = self.path_oracle(e, c, self)
+            if dec is True:
+                return self.ev(e["a"], env)
+            if dec is False:
+                return self.ev(e["b"], env)
         a, b = self.ev(e["a"], env), self.ev(e["b"], env)
         if isinstance(a, sp.Expr) and isinstance(b, sp.Expr):
             return sp.Piecewise((a, c), (b, True))
+        if isinstance(a, sp.Basic) and isinstance(b, sp.Basic):
+            return sp.ITE(c, a, b)
         raise Unsupported("conditional with non-scalar branches")
 
     def e_un(self, e, env):
@@ -1512,6 +1525,8 @@ class Interp:
         self.last_iter_kind = None
         if dec is None and self.case is not None:
             dec = self.case_decide(c)
+        if dec is None and getattr(self, "path_oracle", None) is not None:
+            dec = self.path_oracle(s, c, self)
         if dec is True:
             self.exec(s["then"], env)
             return
